@@ -94,6 +94,11 @@ def gen_cases(rnd, tier):
             cases.append((("dyn", [], -1), bs))
         if rnd.random() < 0.15:
             cases.append((t, mutate_invalid(bs, rnd)))
+    # a J item at the top and inside lists (one, two levels down, next to other items) offered to the catch-all types
+    j_item = bytes([0x45, 3, 0x61, 0xB1, 0x7E])
+    for raw in (j_item, bytes([0x01, 1]) + j_item, bytes([0x01, 2]) + bytes([0xA5, 1, 7]) + j_item, bytes([0x01, 1, 0x01, 2]) + j_item + bytes([0x41, 1, 0x62]), bytes([0x01, 1, 0x45, 0])):
+        for t in (("any",), ("dyn", [], -1)):
+            cases.append((t, raw))
     # every finite float corner through every receiving type
     for bits in F4_BITS:
         raw = bytes([0x91, 4]) + bits.to_bytes(4, "big")
@@ -123,6 +128,14 @@ def observe(t, bs):
     out = {"ok": False, "val": "VNone", "end": 0, "reenc": None, "err": None}
     try:
         var = valrig.build(t)
+        # every second time the receiving variable is not fresh: it holds a value already, which the decoded one replaces entirely
+        # (also when the decoded item is empty)
+        if t[0] == "scal" and (len(bs) + sum(bs[:8])) % 2 == 0:
+            try:
+                var.set({"Binary": b"\x07", "Boolean": True, "String": "x", "JIS8": "x"}.get(t[1], 1))
+                out["preloaded"] = True
+            except Exception:  # noqa: BLE001
+                var = valrig.build(t)
         end = var.decode(bytes(bs))
         out["val"] = valrig.snapshot(var)
         out["end"] = end
